@@ -279,3 +279,45 @@ Proof.
 Qed.
 Theorem unsubscribe_closes c : o_open (ostep c OUnsub) = false \/ o_unsub c = true.
 Proof. unfold ostep. destruct (o_unsub c); auto. Qed.
+
+(* ------------------------------------------------------------------ C15: the worker of an ended subscription exits *)
+Definition ClosedAborts (c : ocfg) : Prop :=
+  o_open c = false -> q_abort (o_q c) = true \/ (exists t, q_worker (o_q c) = WRunning t /\ o_tpc c = ODelivered).
+
+Lemma closed_aborts_step c a : ClosedAborts c -> ClosedAborts (ostep c a).
+Proof.
+  intros H. destruct a as [|w| | |]; unfold ostep, ClosedAborts in *.
+  - destruct (Nat.ltb (o_next c) (o_n c)); try exact H. oc. intro O. destruct (qpost_facts (o_q c) (o_next c)) as (_ & _ & A1 & _ & _ & R1).
+    destruct (H O) as [A|(t & R & T)]; [left; now rewrite A1 | right; exists t; split; auto].
+  - destruct w; try exact H; oc; intro O; (destruct (H O) as [A|(t & R & T)]; [left | right; exists t; cbn [qstep]; rewrite R; auto]).
+    + cbn [qstep]. destruct (q_worker (o_q c)); auto. rewrite A. reflexivity.
+    + cbn [qstep]. destruct (q_worker (o_q c)); auto.
+  - destruct (q_worker (o_q c)) as [| |t0|] eqn:R in |- *; try exact H. destruct (o_tpc c) eqn:T in |- *; try exact H. oc. intro O. destruct (o_open c) eqn:OP.
+    + right. exists t0. auto.
+    + destruct (H eq_refl) as [A|(t' & _ & T')]; [now left | congruence].
+  - destruct (q_worker (o_q c)) as [| |t0|] eqn:R in |- *; try exact H. destruct (o_tpc c) eqn:T in |- *; try exact H. oc. intro O. rewrite O. left.
+    cbn [qstep q_worker q_abort notified]. rewrite R. reflexivity.
+  - destruct (o_unsub c); try exact H. oc. intros _. left. reflexivity.
+Qed.
+Lemma closed_aborts_run acts : forall c, ClosedAborts c -> ClosedAborts (orun acts c).
+Proof. induction acts as [|a acts IH]; intros c H; cbn [orun fold_left]; auto. apply IH. now apply closed_aborts_step. Qed.
+
+(* when nothing can move any more and the subscription has ended - by its terminal or by unsubscribe - the
+   scheduler's worker thread has exited *)
+Theorem observe_on_worker_exits n term acts :
+  let c := orun acts (oinit n term) in
+  o_open c = false -> (forall a, ostep c a = c) -> q_worker (o_q c) = WExited.
+Proof.
+  intros c O Q. assert (I : OInv c) by (apply orun_inv, oinit_inv).
+  assert (CA : ClosedAborts c) by (apply closed_aborts_run; intro H; discriminate H).
+  pose proof (ov_q c I) as QI.
+  destruct (q_worker (o_q c)) eqn:W; auto; exfalso.
+  - (* idle: its next check would change the state *)
+    destruct (CA O) as [A|(t & R & _)]; [|congruence].
+    pose proof (Q (OWorker QCheck)) as E. unfold ostep in E. apply (f_equal (fun x => q_worker (o_q x))) in E. cbn [set_q o_q] in E.
+    unfold qstep in E. rewrite W, A in E. cbn [q_worker] in E. discriminate.
+  - destruct (qi_nolost _ QI W) as [_ A]. destruct (CA O) as [A'|(t & R & _)]; congruence.
+  - destruct (o_tpc c) eqn:T.
+    + pose proof (Q ODeliver) as E. unfold ostep in E. rewrite W, T in E. apply (f_equal o_tpc) in E. cbn [o_tpc] in E. congruence.
+    + pose proof (Q OAfter) as E. unfold ostep in E. rewrite W, T in E. apply (f_equal o_tpc) in E. cbn [o_tpc] in E. congruence.
+Qed.
